@@ -707,3 +707,39 @@ func learnFrom(learn map[string]*learnPkg, pkg string, r *CRecord) {
 	}
 	o.Resp[rs.RespType] = c
 }
+
+// ---- exported for the determinism self-test
+
+// TypedPackages lists the corpus packages that carry the typed glue.
+func (e *Engine) TypedPackages() []CorpusPkg {
+	var out []CorpusPkg
+	for _, p := range e.Corpus {
+		if len(p.Ops) > 0 {
+			out = append(out, p)
+		}
+	}
+	return out
+}
+
+// SampleTyped draws one typed corpus scenario; SampleRaw one raw corpus scenario.
+func SampleTyped(rng *rand.Rand, pkg CorpusPkg, mode Mode, i int) CScenario {
+	return sampleTyped(rng, pkg, mode, i)
+}
+func SampleRaw(rng *rand.Rand, pkg CorpusPkg, mode Mode, i int) CScenario {
+	return sampleCScenario(rng, pkg, mode, i)
+}
+
+// RunCorpus executes corpus scenarios in the plain or race build.
+func (e *Engine) RunCorpus(race bool, scs []CScenario, perProc, jobs int) ([]CResult, error) {
+	bin := e.CPlain
+	if race {
+		bin = e.CRace
+	}
+	return e.runCAll(bin, scs, perProc, jobs)
+}
+
+// FingerprintC is everything observable about a corpus run.
+func FingerprintC(r *CResult) string {
+	b, _ := json.Marshal(r)
+	return string(b)
+}
